@@ -29,6 +29,6 @@ for c in C01 C02 C03 C04 C05 C06 C07 C08 C09 C10 C11 C12 C13 C14 C15 C16; do
   rc=$?
   if [ $rc -ne 0 ]; then echo "--- $c exit $rc"; echo "$out" | grep -v "^KNOWN-FINDING" | grep ": rule " | cut -c1-260 | head -6; fi
 done
-git -C /repo checkout -- .
+git -C /repo checkout -- . ; git -C /repo clean -fdq -- src js
 git -C /repo status --short | head -3
 echo "== done"
